@@ -507,6 +507,10 @@ pub struct AckModel {
     /// Set when a mutate message did not parse under the wire layout this harness knows
     /// (the layout is not part of any property): index-based oracles then stand down.
     pub format_unknown: bool,
+    /// (client, index) of mutate messages handed to the client in its current session.
+    pub delivered_idx: BTreeSet<(usize, u16)>,
+    /// Acknowledgements a client produced for an index it was never handed in this session.
+    pub spurious_acks: Vec<(usize, u16)>,
 }
 
 pub fn parse_mutate(track: bool, client: usize, w: &WireRec) -> Option<MutMsgInfo> {
@@ -785,6 +789,7 @@ impl Sim {
         self.acks.all.retain(|m| m.client != c);
         self.once_sent.retain(|k, _| k.0 != c);
         self.acks.delivered.retain(|k| k.0 != c);
+        self.acks.delivered_idx.retain(|k| k.0 != c);
         if let Some(mut seen) = self.clients[c]
             .app
             .world_mut()
@@ -1221,6 +1226,9 @@ impl Sim {
         // Acknowledgements put into the mailbox before this frame were processed in PreUpdate,
         // i.e. before this frame's replication was collected.
         for (c, idx) in std::mem::take(&mut self.acks.pending_acks) {
+            if !self.acks.format_unknown && !self.acks.delivered_idx.contains(&(c, idx)) {
+                self.acks.spurious_acks.push((c, idx));
+            }
             if let Some(info) = self.acks.in_flight.remove(&(c, idx)) {
                 let etags: BTreeSet<u8> = info.payloads.iter().map(|p| p.0).collect();
                 for e in etags {
@@ -1283,6 +1291,9 @@ impl Sim {
         if ch == 1 {
             for m in &msgs {
                 self.acks.delivered.insert((c, m.id));
+                if let Some(info) = self.acks.all.iter().find(|i| i.id == m.id) {
+                    self.acks.delivered_idx.insert((c, info.index));
+                }
             }
         }
         let mut client = self.clients[c]
